@@ -134,6 +134,63 @@ def check_case(ctx, r):
             ctx.sample({"text": s, "kind": r["kind"], "meaning": r["mean"] if r["kind"] != "Id" else "identifier"}, cap=8)
 
 
+def token_trace(text):
+    """the real lexer's token stream, projected: [TYPE, v1, v2]"""
+    from odata_query import ast
+    from odata_query.grammar import ODataLexer
+    out = []
+    for tok in ODataLexer().tokenize(text):
+        v = tok.value
+        if isinstance(v, ast.Identifier):
+            out.append([tok.type, [project.cps(x) for x in v.namespace], project.cps(v.name)])
+        elif isinstance(v, ast.Null):
+            out.append([tok.type, project.cps("null"), []])
+        elif isinstance(v, ast._Literal):
+            out.append([tok.type, project.cps(v.val), []])
+        else:
+            out.append([tok.type, [], []])
+    return out
+
+
+def validate_tokens(ctx, recs):
+    import json
+    import os
+    traces, info = [], {}
+    for r in recs:
+        s = U(r["text"])
+        try:
+            toks = token_trace(s)
+        except Exception:  # noqa  rejected inputs are reported by check_case
+            continue
+        cid = len(traces) + 1
+        traces.append({"id": cid, "text": r["text"], "toks": toks})
+        info[cid] = (s, r, toks)
+    if not traces:
+        return
+    os.makedirs(tlc.BUILD, exist_ok=True)
+    path = os.path.join(tlc.BUILD, "trace_tokens_%d.json" % os.getpid())
+    with open(path, "w") as f:
+        json.dump(traces, f)
+    try:
+        res = tlc.run("Trace_Tokens", env={"TRACE_FILE": path}, check_count=False,
+                      keep_lines=lambda r: r.get("k") == "verdict", timeout=3000, heap="12g")
+    finally:
+        os.unlink(path)
+    ctx.add_tlc(res)
+    seen = {r["id"]: r for r in res.records}
+    if len(seen) != len(traces):
+        raise tlc.MachineryError("Trace_Tokens: %d verdicts for %d traces" % (len(seen), len(traces)))
+    for cid, v in seen.items():
+        ctx.traces += 1
+        s, r, toks = info[cid]
+        if v["v"] == "noverdict":
+            ctx.notes["token_traces_noverdict"] = ctx.notes.get("token_traces_noverdict", 0) + 1
+        elif v["v"] != "ok":
+            ctx.violation({"kind": r["kind"], "ctxt": r["ctxt"], "what": "token-stream-" + v["v"]},
+                          {"text": s, "at": v["at"], "tokens": [t[0] for t in toks], "case": r})
+    ctx.notes["token_traces_validated"] = len(traces)
+
+
 def run(ctx):
     ctx.rule = ("spellings from structured descriptions per literal kind (boundary date/time fields, all 63 duration "
                 "component subsets x sign x case, integers, decimals/exponents, strings over an adversarial alphabet, "
@@ -151,6 +208,9 @@ def run(ctx):
         ctx.violation({"kind": "model", "inv": res.violation}, {"tlc": res.raw_tail[-2000:]})
     for r in res.records:
         check_case(ctx, r)
+    # trace validation of the real token stream against Lex.tla (two contexts per spelling in the quick tier)
+    sel = [r for r in res.records if ctx.tier == "thorough" or r["ctxt"] in ("arith", "list2")]
+    validate_tokens(ctx, sel)
     ctx.exhaustive = True
 
 
